@@ -112,7 +112,7 @@ def run(ctx):
 
 
 def r07_2(ctx, commit):
-    b = commit.built
+    b = inl(ctx.facts, commit)
     # new contents come from the working copy
     assigns = [(loc, s) for loc, s in b.iter_stmts() if s["k"] == "assign" and place_fields(s["place"])[-2:] == ["inner", "values"]]
     if not assigns:
